@@ -78,7 +78,7 @@ def minimise(prop_mod, case, sched, clause, budget_s=60.0):
         # knobs
         k = case["knobs"]
         for name, val in (("workers", 2), ("capacity", None), ("feeder", False), ("policy", {"kind": "lowest"}),
-                          ("start_method", "spawn"), ("tty", False), ("piped_exts", []), ("emfile_at", None), ("relpaths", False), ("preexist", False), ("enospc", None)):
+                          ("start_method", "spawn"), ("tty", False), ("piped_exts", []), ("emfile_at", None), ("relpaths", False), ("preexist", False), ("enospc", None), ("short_reads", None)):
             if k.get(name) != val:
                 cand = copy.deepcopy(case)
                 cand["knobs"][name] = val
